@@ -281,6 +281,9 @@ impl PngData {
 
 impl PngImage {
     pub fn new(ihdr: IhdrData, compressed_data: &[u8]) -> Result<Self, PngError> {
+        if ihdr.width == 0 || ihdr.height == 0 {
+            return Err(PngError::InvalidData);
+        }
         let raw_data = deflate::inflate(compressed_data, ihdr.raw_data_size())?;
 
         // Reject files with incorrect width/height or truncated data
